@@ -84,5 +84,23 @@ namespace rkverif {
       snprintf(result, 100, "%zu", s);
       return result;
     }
+
+    // ---- positive example for R-C18-12: a helper that formats into a function-local static buffer
+    // must be reported: `shared` is written and handed out
+    inline const char *formatShared(double mantissa, char suffix)
+    {
+      static char shared[64];
+      snprintf(shared, sizeof(shared), "%.1f%c", mantissa, suffix);
+      return shared;
+    }
+
+    // accepted: a constant table is only read
+    inline std::string prettyShared(double v)
+    {
+      static const double unit[2] = {1e6, 1e3};
+      if (v >= unit[0])
+        return formatShared(v / 1e6, 'M');
+      return formatShared(v / unit[1], 'k');
+    }
   }  // namespace c18w
 }  // namespace rkverif
